@@ -25,5 +25,9 @@ func RemoveTempName(in string) string {
 func EscapeDotGraph(in string) string {
 	res := strings.ReplaceAll(in, "<", "\\<")
 	res = strings.ReplaceAll(res, ">", "\\>")
+	// the other characters that structure a record label or end the string
+	for _, c := range []string{"{", "}", "|", "\""} {
+		res = strings.ReplaceAll(res, c, "\\"+c)
+	}
 	return res
 }
